@@ -379,7 +379,7 @@ class H(Harness):
             o = one_run(dyn, ctl, leaves, proto, gen, case, j, run)
             o['proto_same'] = (o.pop('proto') == before)
             # the same run on a FRESH experiment object (unbounded generator) given the same random source
-            if o['started'] is not None:
+            if 'gen0' not in o['calls']:
                 d2, c2, l2, p2, t2, g2 = build_experiment(case, None)
                 f = one_run(d2, c2, l2, p2, g2, case, j, run)
                 f.pop('proto')
@@ -400,12 +400,14 @@ class H(Harness):
             if limit is not None and o['generated'] > limit:
                 v.append({'signature': 'generator-exceeded-its-limit', 'detail': dict(where, generated=o['generated'], limit=limit)})
             st = o['started']
+            f = o.get('fresh')
+            if st is None and f is not None and f['started'] is not None:
+                v.append({'signature': 'run-does-not-start-because-of-history', 'detail': dict(where, calls=o['calls'], exception=o['exception'])})
             if st is not None:
                 if not st['net_distinct']:
                     v.append({'signature': 'working-network-is-the-prototype', 'detail': where})
                 if st['clock'] != 0.0:
                     v.append({'signature': 'run-does-not-start-at-time-0', 'detail': dict(where, clock=st['clock'])})
-                f = o['fresh']
                 if f['started'] is None:
                     v.append({'signature': 'fresh-object-did-not-start', 'detail': where})
                 else:
@@ -459,7 +461,7 @@ class H(Harness):
             runs.append(('{| r_variant := %s; r_outcome := %s; o_calls := %s; o_status := %s; o_failed := %s; o_remaining := %s; '
                          'o_generated := %s; o_started := %s; o_left_queue := %s; o_left_finder := %s; o_proto_same := %s |}') % (
                 L.nat(run['params'].get('variant', 0)), outcome, L.lst([TAGS[c] for c in o['calls']]), status, L.b(failed),
-                'None' if o['remaining'] is None else '(Some %s)' % L.nat(o['remaining']), L.nat(o['generated']), started,
+                'None' if o['remaining'] is None else '(Some %s)' % (L.nat(o['remaining']) if 0 <= o['remaining'] < 4999 else '4999%nat'), L.nat(o['generated']), started,
                 L.nat(o['left_queue']), L.nat(o['left_finder']), L.b(o['proto_same'])))
         return '{| c_tables := %s; c_script := %s; c_proto := (%s, %s); c_limit := %s; c_runs := %s |}' % (
             tables, L.b(script), L.lst(list(g.nodes()), L.z), L.lst([tuple(e) for e in g.edges()], L.zpair),
